@@ -166,6 +166,8 @@ def name_obligation(kind, clause_span, site_span, msg, origins, fn_ranges, diag)
     f = enclosing_fn(sl, fn_ranges)
     if f:
         fn = f["qual"]
+    if kind in ("ensures", "invariant", "decreases") and org.get("fn"):
+        fn = org["fn"]          # the clause's own function (spans inside macro expansions can point elsewhere)
     if not fn:
         fn = org.get("lemma") or "<toplevel>"
     callee = None
